@@ -1855,6 +1855,11 @@ class Engine:
         return [Outcome("fall", st)]
 
     def st_Return(self, s, st):
+        if (self.c.path_hints or {}).get("abstract_answers") and s.value is not None \
+                and not (isinstance(s.value, ast.Name) and s.value.id == "Nothing"):
+            # guard contracts only speak about WHETHER the function answers: the answer itself is not evaluated
+            return [Outcome("return", st, VOpt(z3.BoolVal(False), self.fac.mk(TAny(), fresh_name("answer"))),
+                            lineno=s.lineno)]
         val = self.ev(s.value, st) if s.value is not None else VNone()
         return [Outcome("return", st, val, lineno=s.lineno)]
 
